@@ -134,8 +134,27 @@ Mont(i) == PInt(MPrime(i))
 KinJ(i) == PScale(<<1, 2>>, PMul(OneMinusMu2, PMul(Vj(i), Vj(i))))
 DivTendJ(i) == PAdd(PNeg(LapZ(PAdd(Mont(i), KinJ(i)), cfg.a)),
                     PNeg(DivMeridional(PMul(Wj(i), EtaJ(i)), cfg.a)))
+(* ---- the library's own constructor of balanced jets: shallow_water_states.one_layer / multi_layer ----
+   It is given only the grid (radius a) and the zonal wind; the Coriolis parameter is hard-wired to
+   sin(lat), i.e. 2 Omega = 1, the default non-dimensionalisation.  Its algorithm in the polynomial algebra:
+       zc = -(1/a) d/dmu( (1 - mu^2) V )                                        the vorticity it returns
+       S  = -InvLap( (1/a) d/dmu( (1 - mu^2) V (zc + mu) ) ),  i.e.  S' = -a V (zc + mu)
+       Mc = S - V^2 (1 - mu^2) / 2              the Montgomery potential; the layer potentials follow by
+                                                solving the coupling matrix (multi_layer), zero mean per layer
+   As found, both meridional derivatives were taken without the 1/a of the metric (sec_lat_d_dlat_cos2 is the
+   bare recurrence): zc = -d/dmu(..) = a * zeta and S' = -a^2 V (zc + mu).  The equations recover the wind
+   from the vorticity of the state, so they see the wind s V with s = 1 (repaired) or a (as found). *)
+CScale(fixed) == IF fixed THEN One ELSE cfg.a
+CVort(i, fixed) == PScale(CScale(fixed), ZetaJ(i))
+CMont(i, fixed) == PAdd(PInt(PScale(RNeg(RMul(cfg.a, CScale(fixed))), PMul(Vj(i), PAdd(CVort(i, fixed), Mu)))), PNeg(KinJ(i)))
+CDivTend(i, fixed) ==
+  LET s == CScale(fixed)
+      eta == PAdd(CVort(i, fixed), PScale(RMul(R(2), cfg.omega), Mu))
+  IN  PAdd(PNeg(LapZ(PAdd(CMont(i, fixed), PScale(RMul(s, s), KinJ(i))), cfg.a)),
+           PNeg(DivMeridional(PMul(PScale(s, Wj(i)), eta), cfg.a)))
 Jet == /\ pc = "new" /\ cfg.family = "jet"
        /\ out' = [i \in 1..NL |-> [V |-> Vj(i), M |-> Mont(i), zeta |-> ZetaJ(i), total |-> DivTendJ(i),
+                                   Mc |-> CMont(i, TRUE),
                                    couple |-> [j \in 1..NL |-> Couple(i, j)]]]
        /\ pc' = "done" /\ UNCHANGED cfg
 Next == Solid \/ Rest \/ Jet
@@ -152,5 +171,16 @@ SolidNeedsKinetic == (Done /\ cfg.family = "solid") =>
    \A k \in 1..K : ~PIsZero(PAdd(out[k].total, PNeg(out[k].kinetic)))
 JetNeedsCoupling == (Done /\ cfg.family = "jet" /\ NL >= 2 /\ cfg.rho = "stable") =>
    Couple(2, 1) # Couple(1, 2)
+(* the constructor: at the rotation rate it assumes (2 Omega = 1) its state is steady on a sphere of any
+   radius and its Montgomery potential is the balanced one up to a constant; at any other rotation rate it is
+   not steady (its Coriolis parameter is not an argument: anti-vacuity, and a documented limit of the API) *)
+IsJet == Done /\ cfg.family = "jet"
+PSame(p, q) == PIsZero(PAdd(p, PNeg(q)))
+ConstructorSteady == (IsJet /\ cfg.omega = <<1, 2>>) => \A i \in 1..NL : PIsZero(CDivTend(i, TRUE))
+ConstructorIsBalanced == (IsJet /\ cfg.omega = <<1, 2>>) => \A i \in 1..NL : PSame(PDer(CMont(i, TRUE)), MPrime(i))
+ConstructorAssumesRotation == (IsJet /\ cfg.omega # <<1, 2>>) => \E i \in 1..NL : ~PIsZero(CDivTend(i, TRUE))
+(* refuted by TLC (Balanced_asfound.cfg): without the metric factor the state is steady on the unit sphere only *)
+AsFoundConstructorSteady == (IsJet /\ cfg.omega = <<1, 2>>) => \A i \in 1..NL : PIsZero(CDivTend(i, FALSE))
+AsFoundSoundOnUnitSphere == (IsJet /\ cfg.omega = <<1, 2>> /\ cfg.a = One) => \A i \in 1..NL : PIsZero(CDivTend(i, FALSE))
 Export == Done => PrintT(<<"CASE", ToJson([cfg |-> cfg, out |-> out])>>)
 =============================================================================
